@@ -595,6 +595,21 @@ func runC19(c *fw.Ctx) {
 		step("Insert(nil at end)", func() at.List { return l.Insert(l.Count(), nil) })
 		step("SetTF(nested object)", func() at.List { return l.SetTF("#1.k", 5) })
 		step("SetTF(nested list)", func() at.List { return l.SetTF("#2#1", 5) })
+		// new rows and records behind the end, next to neighbours of every kind
+		step("SetTF(new row behind a row)", func() at.List {
+			return l.Add(at.NewList(1)).SetTF(fmt.Sprintf("#%d#0", l.Count()), 9)
+		})
+		step("SetTF(new row behind a row, with a gap in the row)", func() at.List { return l.SetTF(fmt.Sprintf("#%d#2", l.Count()), 9) })
+		step("SetTF(new record behind a record)", func() at.List {
+			return l.Add(at.NewObject("k", 1)).SetTF(fmt.Sprintf("#%d.k", l.Count()), 9)
+		})
+		step("SetTF(new record behind a row)", func() at.List {
+			return l.Add(at.NewList()).SetTF(fmt.Sprintf("#%d.k.j", l.Count()), 9)
+		})
+		step("SetTF(new row behind a scalar)", func() at.List { return l.Add("s").SetTF(fmt.Sprintf("#%d#0#0", l.Count()), 9) })
+		step("SetTF(into the last row)", func() at.List {
+			return l.Add(at.NewList(1, 2)).SetTF(fmt.Sprintf("#%d#2", l.Count()-1), 9)
+		})
 		step("UnsetTF(nested)", func() at.List { return l.UnsetTF("#1.k") })
 		step("Pop", func() at.List { return l.Pop() })
 		step("Pop.Reverse", func() at.List { return l.Pop().Reverse() })
